@@ -1,3 +1,5 @@
+use std::cell::Cell;
+
 use ruma_common::serde::Raw;
 use serde::{de::DeserializeOwned, Deserialize, Deserializer};
 
@@ -13,6 +15,34 @@ struct BundledMessageLikeRelationsJsonRepr<E> {
     reference: Option<Box<ReferenceChunk>>,
 }
 
+/// The maximum number of replacements bundled into each other that are deserialized.
+const MAX_REPLACEMENT_DEPTH: u8 = 16;
+
+thread_local! {
+    static REPLACEMENT_DEPTH: Cell<u8> = const { Cell::new(0) };
+}
+
+/// Counts how deep we are in bundled replacements on this thread.
+struct ReplacementDepthGuard;
+
+impl ReplacementDepthGuard {
+    /// Go one level deeper, or return `None` if the limit is reached.
+    fn enter() -> Option<Self> {
+        REPLACEMENT_DEPTH.with(|depth| {
+            (depth.get() < MAX_REPLACEMENT_DEPTH).then(|| {
+                depth.set(depth.get() + 1);
+                Self
+            })
+        })
+    }
+}
+
+impl Drop for ReplacementDepthGuard {
+    fn drop(&mut self) {
+        REPLACEMENT_DEPTH.with(|depth| depth.set(depth.get() - 1));
+    }
+}
+
 impl<'de, E> Deserialize<'de> for BundledMessageLikeRelations<E>
 where
     E: DeserializeOwned,
@@ -24,11 +54,19 @@ where
         let BundledMessageLikeRelationsJsonRepr { replace, thread, reference } =
             BundledMessageLikeRelationsJsonRepr::deserialize(deserializer)?;
 
-        let (replace, has_invalid_replacement) =
-            match replace.as_ref().map(Raw::deserialize).transpose() {
-                Ok(replace) => (replace, false),
-                Err(_) => (None, true),
-            };
+        // The replacement is parsed from its raw text, so the recursion limit of the JSON parser
+        // starts again for it. Bound the nesting of replacements ourselves, otherwise a long chain
+        // of events bundled into each other overflows the stack.
+        let (replace, has_invalid_replacement) = match replace {
+            None => (None, false),
+            Some(raw) => match ReplacementDepthGuard::enter() {
+                Some(_guard) => match raw.deserialize() {
+                    Ok(replace) => (Some(replace), false),
+                    Err(_) => (None, true),
+                },
+                None => (None, true),
+            },
+        };
 
         Ok(BundledMessageLikeRelations { replace, has_invalid_replacement, thread, reference })
     }
